@@ -35,6 +35,11 @@ def export_behaviours(chk, cfgs, simulate=None):
                         continue
                 keep.append(r)
             reps = keep
+        cap = int(os.environ.get("VERIF_DIR_CAP", "40000"))
+        if len(reps) > cap:
+            # the model itself is checked exhaustively by TLC; only the replay on the real code is sampled
+            chk.cov["notes"].append(f"{cfg}: {len(reps)} transitions exported, seeded sample of {cap} replayed on the implementation")
+            reps = random.Random(chk.seed).sample(reps, cap)
         for r in reps:
             out.append((labels, values, r["path"] + [r["act"]], bool(sim)))
         log(f"[mc] {cfg}: {res['distinct']} distinct states, {res['generated']} transitions, {len(reps)} behaviours exported")
